@@ -33,7 +33,7 @@ ASSUMPTIONS = [
     "the 'all variants' policies are only drawn for structures whose estimated number of paths is <= 1500 (gen/c09_repeats.estimate_paths); at most the first 8 variants of a call are judged part by part; a 30 s watchdog guards against a non-terminating enumeration",
     "a reference (tie, slur, tuplet) that crosses a segment boundary may be None in the copy; inside one segment visit it must connect the copies",
     "time/key signature and clef in force at a revisited segment are not judged (the statement lists notes, length, brackets, references); the divisions in force are (they decide the duration of a note)",
-    "ids of rests are not judged under update_ids (the statement speaks of notes)",
+    "ids of rests and of unpitched notes are not judged under update_ids (the statement speaks of notes; the library's docstrings name 'notes, rests, and unpitched notes' as three kinds and Part.notes holds the first only)",
     "order of the variants is not demanded",
 ]
 
@@ -238,7 +238,7 @@ def check_unfolded(o, case, new, update_ids, tag, expect=None, path_bars=None):
         if got != want:
             o.add("copied-note-attributes-changed", tag=tag, id=e[0], got=got, expected=want)
             break
-        if e[3] != "rest":
+        if e[3] not in ("rest", "unpitched"):
             want_id = "%s-%d" % (e[0], e[9]) if update_ids else e[0]
             if ob.id != want_id:
                 o.add("note-id-wrong-after-unfolding" if update_ids else "note-id-changed-without-update-ids", tag=tag, got=ob.id, expected=want_id, seq=seq)
@@ -505,26 +505,56 @@ def run_policy(o, case, spec, part):
     emax = R.expected_maximal(spec["structure"]) if exact else None
     emin = R.expected_minimal(spec["structure"]) if exact else None
     out = []
-    if pol == "maximal":
+    if pol in ("maximal", "minimal"):
+        e_, u_ = (emax, uid) if pol == "maximal" else (emin, False)
         if spec.get("as_score"):
-            sc = S.Score(partlist=[part], id="sc")
-            res = call(S.unfold_part_maximal, sc, uid, il)
-            new = res.parts[0] if isinstance(res, S.Score) and len(res.parts) == 1 else res
-            if res is sc or len(sc.parts) != 1 or sc.parts[0] is not part:
+            # (generator audit) a Score of one part, or of two parts holding the same material
+            plist = [part]
+            if spec.get("score_parts") == 2:
+                plist.append(GR.build_case_part(spec, pid="P2")[0])
+            sc = S.Score(partlist=list(plist), id="sc")
+            res = call(S.unfold_part_maximal, sc, uid, il) if pol == "maximal" else call(S.unfold_part_minimal, sc)
+            if res is sc or len(sc.parts) != len(plist) or any(a is not b for a, b in zip(sc.parts, plist)):
                 o.add("original-score-modified", policy=pol)
+            if not isinstance(res, S.Score) or len(res.parts) != len(plist):
+                o.add("unfolded-score-has-other-number-of-parts", policy=pol, got=len(res.parts) if isinstance(res, S.Score) else type(res).__name__)
+                out.append((pol, res, e_, None, u_))
+            else:
+                for i, np_ in enumerate(res.parts):
+                    if any(np_ is x for x in plist):
+                        o.add("unfolded-score-holds-an-original-part", policy=pol, index=i)
+                    out.append((pol if i == 0 else pol + "#part2", np_, e_, None, u_))
         else:
-            new = call(S.unfold_part_maximal, part, uid, il)
-        out.append(("maximal", new, emax, None, uid))
-    elif pol == "minimal":
-        if spec.get("as_score"):
-            sc = S.Score(partlist=[part], id="sc")
-            res = call(S.unfold_part_minimal, sc)
-            new = res.parts[0] if isinstance(res, S.Score) and len(res.parts) == 1 else res
-            if res is sc or len(sc.parts) != 1 or sc.parts[0] is not part:
-                o.add("original-score-modified", policy=pol)
+            new = call(S.unfold_part_maximal, part, uid, il) if pol == "maximal" else call(S.unfold_part_minimal, part)
+            out.append((pol, new, e_, None, u_))
+    elif pol == "alignment":
+        # (generator audit) unfold_part_alignment: the variant that covers the score ids of an alignment best; the
+        # alignment names every note of the maximal unfolding (second visits included) plus an insertion
+        want = emax if emax is not None else None
+        seq_for_ids = want if want is not None else R.expected_minimal(spec["structure"])
+        visit, al = {}, []
+        for b in seq_for_ids:
+            visit[b] = visit.get(b, 0) + 1
+            for nt in case.notes_by_bar[b]:
+                if nt["kind"] in ("note", "grace") and not nt.get("tie_prev"):
+                    al.append({"label": "match" if len(al) % 3 else "deletion", "score_id": "%s-%d" % (nt["id"], visit[b])})
+        # the maximal unfolding is the only variant that holds all these ids if every bar contributes an id (a bar
+        # whose only notes continue a tie adds nothing: then a shorter variant covers the alignment equally well)
+        every_bar_named = all(any(nt["kind"] in ("note", "grace") and not nt.get("tie_prev") for nt in case.notes_by_bar[b]) for b in set(seq_for_ids))
+        named = [x["score_id"] for x in al]
+        al.append({"label": "insertion", "performance_id": "extra"})
+        if not named:
+            # a part without a single pitched note: there is nothing an alignment could name (the coverage is undefined)
+            o.excluded.append("alignment-without-score-notes")
+            new = call(S.unfold_part_maximal, part, True, il)
         else:
-            new = call(S.unfold_part_minimal, part)
-        out.append(("minimal", new, emin, None, False))
+            new = call(S.unfold_part_alignment, part, al)
+        if isinstance(new, S.Part) and want is not None and not case.marks:
+            have = set(n_.id for n_ in new.iter_all(S.Note, include_subclasses=True))
+            lost = [x for x in named if x not in have]
+            if lost:
+                o.add("alignment-unfolding-lacks-aligned-notes", missing=lost[:5], n=len(lost))
+        out.append(("alignment", new, want if (named and every_bar_named) else None, None, True))
     elif pol == "all_iter":
         parts = call(lambda: list(itertools.islice(S.iter_unfolded_parts(part, update_ids=uid), MAX_VARIANTS_CHECKED)))
         for i, p in enumerate(parts):
@@ -539,12 +569,16 @@ def run_policy(o, case, spec, part):
             if [x[2] for x in st_] != [sum(e - s for (s, e, _) in st_[:k]) for k in range(len(st_))]:
                 o.add("score-variant-offsets-not-cumulative", times=[list(x) for x in st_])
             out.append(("variant#%d" % i, p, None, None, uid))
-    elif pol in ("paths_max", "paths_min", "paths_all"):
+    elif pol in ("paths_max", "paths_min", "paths_min_both", "paths_all"):
         if pol == "paths_max":
             paths = call(S.get_paths, part, False, True, il)
             exp = emax
         elif pol == "paths_min":
             paths = call(S.get_paths, part, True, False, il)
+            exp = emin
+        elif pol == "paths_min_both":
+            # (generator audit) both flags: no_repeats is documented to win over all_repeats
+            paths = call(S.get_paths, part, True, True, il)
             exp = emin
         else:
             paths = call(S.get_paths, part, False, False, il)
@@ -605,6 +639,16 @@ def classify(o, case, spec):
     o.cls("policy:" + spec["policy"])
     o.cls("update-ids", bool(spec["update_ids"]))
     o.cls("score-argument", bool(spec.get("as_score")) and spec["policy"] in ("maximal", "minimal"))
+    # ---- generator audit (docs/audit/C09.md)
+    o.cls("score-of-two-parts", bool(spec.get("as_score")) and spec["policy"] in ("maximal", "minimal") and spec.get("score_parts") == 2)
+    o.cls("ending-number-int", bool(spec.get("ending_ints")) and any(str(num).isdigit() for num, _, _ in lay["endings"]))
+    o.cls("pickup-bar", ps.get("pickup") is not None)
+    o.cls("nesting-depth-3", any(d >= 2 and nd["k"] != "plain" for nd, d in nodes))
+    o.cls("more-than-26-segments", len(R.boundaries(lay, case.marks)) > 27)
+    o.cls("staff-none-or-unpitched", any(nt.get("staff") is None or nt["kind"] == "unpitched" for nt in ps["notes"]))
+    o.cls("signatures-clefs-tempo-on-bar-lines", bool(ps.get("keysigs") or ps.get("clefs") or ps.get("tempos")))
+    bounds = set(case.bt[k] for k in R.boundaries(lay, case.marks))
+    o.cls("direction-or-page-over-segment-boundary", any(any(t0 < b < t1 for b in bounds) for _, t0, t1 in ps.get("spans", [])))
     return nrep, nvol
 
 
@@ -824,15 +868,15 @@ def oracle_equal(spec):
 # strategies
 # ----------------------------------------------------------------------------------------------
 def strat_repeats(tier):
-    return GR.case(kinds=("plain", "rep", "volta", "nested"), marks_modes=("none",),
-                   policies=("maximal", "maximal", "minimal", "all_iter", "all_variants", "paths_max", "paths_min", "paths_all"),
+    return GR.case(kinds=("plain", "rep", "volta", "nested", "long-chain"), marks_modes=("none",),
+                   policies=("maximal", "maximal", "minimal", "all_iter", "all_variants", "paths_max", "paths_min", "paths_all", "alignment", "alignment", "paths_min_both"),
                    max_sections=4 if tier == "quick" else 5)
 
 
 def strat_navigation(tier):
     return GR.case(kinds=("plain", "plain", "rep", "volta", "nested"),
-                   marks_modes=("dc_al_fine", "ds_al_fine", "dc_al_coda", "ds_al_coda", "arbitrary", "arbitrary", "inert_inside"),
-                   policies=("maximal", "maximal", "minimal", "all_iter", "all_variants", "paths_max", "paths_min", "paths_all"),
+                   marks_modes=("dc_al_fine", "ds_al_fine", "dc_al_coda", "ds_al_coda", "ds_al_coda", "arbitrary", "arbitrary", "arbitrary", "inert_inside", "inert_inside"),
+                   policies=("maximal", "maximal", "minimal", "all_iter", "all_variants", "paths_max", "paths_min", "paths_all", "alignment", "alignment", "paths_min_both"),
                    max_sections=4)
 
 
@@ -959,6 +1003,9 @@ KNOWN = {
                                                                or d.kind.startswith("invalid-path:")) and "structure" in spec and _ending_split(spec),
     "mark-between-endings-adds-fall-through": lambda spec, d: d.kind.startswith("wrong-bar-sequence:") and "structure" in spec and _mark_between_endings(spec),
     "repeat-or-succession-taken-for-leap": lambda spec, d: (d.kind in PREMATURE or d.kind == ENDLESS[0] or d.kind.startswith("wrong-bar-sequence:")) and "structure" in spec and _false_leap_edge(spec),
+    # (generator audit) Ending.number is documented as int; add_segments calls .split(",") on it
+    "int-ending-number-raises": lambda spec, d: d.kind == "sut-raised:AttributeError@score.py:add_segments" and bool(spec.get("ending_ints")) and "structure" in spec
+    and any(str(num).isdigit() for num, _, _ in R.layout(spec["structure"])["endings"]) and "'int' object has no attribute 'split'" in str(d["detail"].get("text", "")),
     "jump-rewrites-shared-segments": lambda spec, d: (d.kind in PREMATURE or d.kind == ENDLESS[0]) and spec["policy"] in MULTI and (_real_jump_mark(spec) or _false_leap_edge(spec)),
 }
 
@@ -970,8 +1017,12 @@ SUBCHECKS = [
         strategy=strat_repeats,
         budget={"quick": 100, "thorough": 2000},
         known=KNOWN,
-        rule="structures drawn from the grammar plain | simple repeat | repeat with endings ([1][2], [1,2][3], [1][2][3], [1][2,3], [1,2,3][4]) | nested repeat, x policy (maximal, minimal, iter_unfolded_parts, make_score_variants, get_paths+new_part_from_path) x update_ids x ignore_leaps x Part/Score argument; exact maximal/minimal bar sequence from the independent interpreter; non-trivial = >= 1 repeat with endings or >= 2 repeats",
-        floors={"volta-starting-at-bar-1": 0.02, "three-or-more-endings": 0.03, "tie-across-segment-boundary": 0.05, "nested": 0.05},
+        rule="structures drawn from the grammar plain | simple repeat | repeat with endings ([1][2], [1,2][3], [1][2][3], [1][2,3], [1,2,3][4]) | nested repeat, (nesting up to depth 3, chains of 14-20 repeats = more than 26 segments, pickup bar, int or str ending numbers, staff None / unpitched notes, signatures / clefs / tempo marks on bar lines, directions, pedals, pages and systems over segment boundaries) x policy (maximal, minimal, iter_unfolded_parts, make_score_variants, get_paths (also with both flags) + new_part_from_path, unfold_part_alignment) x update_ids x ignore_leaps x Part / Score of one or two parts; exact maximal/minimal bar sequence from the independent interpreter; non-trivial = >= 1 repeat with endings or >= 2 repeats",
+        floors={"volta-starting-at-bar-1": 0.02, "three-or-more-endings": 0.03, "tie-across-segment-boundary": 0.05, "nested": 0.05,
+                # generator audit (docs/audit/C09.md); a quarter of the smallest share seen over seven seeds
+                "ending-number-int": 0.015, "pickup-bar": 0.04, "more-than-26-segments": 0.02, "nesting-depth-3": 0.015, "policy:alignment": 0.007,
+                "policy:paths_min_both": 0.006, "score-of-two-parts": 0.004, "direction-or-page-over-segment-boundary": 0.08,
+                "staff-none-or-unpitched": 0.06, "signatures-clefs-tempo-on-bar-lines": 0.12},
     ),
     SubCheck(
         "navigation_marks",
@@ -980,7 +1031,7 @@ SUBCHECKS = [
         budget={"quick": 100, "thorough": 2000},
         known=KNOWN,
         rule="the same grammar plus da capo / fine / segno / dal segno / coda / to coda on bar lines, textbook arrangements (D.C. al fine, D.S. al fine, D.C. al coda, D.S. al coda) and arbitrary positions; permissive path predicate and all structural claims; non-trivial = every case (a navigation mark is present)",
-        floors={"marks:arbitrary": 0.1, "marks:ds_al_coda": 0.05, "marks:inert_inside": 0.05},
+        floors={"marks:arbitrary": 0.1, "marks:ds_al_coda": 0.05, "marks:inert_inside": 0.05, "pickup-bar": 0.04, "direction-or-page-over-segment-boundary": 0.08},
     ),
     SubCheck(
         "two_to_the_r_variants",
